@@ -89,3 +89,72 @@ def no_signed_overflow_add(a, b):
 
 def no_signed_overflow_sub(a, b):
     return z3.And(z3.BVSubNoOverflow(a, b), z3.BVSubNoUnderflow(a, b, True))
+
+
+# ---- TIR expression builders (variant indices come from the repository's source)
+class TIR:
+    def __init__(s, eng):
+        s.eng = eng
+
+    def v(s, ty, variant, *fields):
+        r = s.eng.mk_variant(ty, variant, list(fields))
+        if r is None:
+            raise Unmodelled("no variant %s::%s in the sources" % (ty, variant))
+        return r
+
+    def st(s, ty, **fields):
+        q, d = s.eng.tdef(ty, "struct")
+        if d is None:
+            raise Unmodelled("no struct %s in the sources" % ty)
+        fields = {k.rstrip("_"): v for k, v in fields.items()}
+        missing = [f for f in d[2] if f not in fields]
+        if missing or len(fields) != len(d[2]):
+            raise Unmodelled("struct %s fields %s given %s" % (ty, d[2], list(fields)))
+        return Agg(q, None, 0, [fields[f] for f in d[2]])
+
+    def none(s):
+        return s.v("Expression", "None")
+
+    def num(s, x):
+        return s.v("Expression", "Number", x)
+
+    def boolean(s, b):
+        return s.v("Expression", "Bool", b)
+
+    def bytes(s, bs):
+        return s.v("Expression", "Bytes", VecM(list(bs)))
+
+    def string(s, t):
+        return s.v("Expression", "String", StrM(t, True))
+
+    def address(s, bs):
+        return s.v("Expression", "Address", VecM(list(bs)))
+
+    def hash(s, bs):
+        return s.v("Expression", "Hash", VecM(list(bs)))
+
+    def list(s, xs):
+        return s.v("Expression", "List", VecM(list(xs)))
+
+    def map(s, kvs):
+        return s.v("Expression", "Map", VecM([tup(k, v) for k, v in kvs]))
+
+    def tuple(s, a, b):
+        return s.v("Expression", "Tuple", BoxV(tup(a, b)))
+
+    def struct(s, constructor, fields):
+        return s.v("Expression", "Struct", s.st("StructExpr", constructor=constructor, fields=VecM(list(fields))))
+
+    def assets(s, xs):
+        return s.v("Expression", "Assets", VecM(list(xs)))
+
+    def asset(s, policy, name, amount):
+        return s.st("AssetExpr", policy=policy, asset_name=name, amount=amount)
+
+
+def expr_num(v):
+    """-> the i128 inside Expression::Number, else None"""
+    v = models.deref(v)
+    if isinstance(v, Agg) and v.ty == "Expression" and v.variant == "Number":
+        return v.fields[0]
+    return None
